@@ -792,6 +792,33 @@ def jump_cascade_sources():
             lines += ["    out"] * 140
             lines += ["    out.append(-x)", "out.append('end')"]
             out.append("\n".join(lines) + "\n")
+    return out + deep_cascade_sources()
+
+
+def deep_cascade_sources():
+    """L nested `if c and c and c:` whose false-targets sit three instructions apart just below the
+    one-byte operand limit: widening the innermost level's jumps pushes the next level's target over
+    the limit, and so on outwards, so the encoder's jump-width fix point needs about L+1 passes
+    (after normalize(), when no jump carries a width override).  The pad length is swept around the
+    boundary for <=3.9 (byte offsets) and for 3.10 (instruction indices)."""
+    out = []
+    ind = "    "
+    for levels, c39, c310 in ((5, 40, 104), (6, 36, 100), (7, 31, 95), (8, 27, 91), (9, 22, 86), (12, 9, 73)):
+        for center in (c39, c310):
+            for pad in range(max(1, center - 3), center + 4):
+                for extra in (0, 1):
+                    lines = ["out = []", "def f(c, x, out):"]
+                    for i in range(levels):
+                        lines.append(ind * (i + 1) + "if c and c and c:")
+                    body = ind * (levels + 1)
+                    lines += [body + "x"] * pad
+                    if extra:
+                        lines.append(body + "-x")
+                    lines.append(body + "out.append(0)")
+                    for i in range(levels - 1, 0, -1):
+                        lines.append(ind * (i + 1) + "-x")
+                    lines += [ind + "out.append(-1)", ind + "return out", "f(1, 2, out)", "f(0, 2, out)"]
+                    out.append("\n".join(lines) + "\n")
     return out
 
 
